@@ -662,8 +662,15 @@ func (h *harness) life(hist history) {
 			What:   fmt.Sprintf("history %s: the deletion of the sealed fraction begun in step %d is not finished by the following starts: files left %s; states %s", hist.events(), eff, obs[len(obs)-1], strings.Join(obs, ";")),
 			Replay: []string{hist.String()}})
 	} else if served != "all" && served != "none" {
-		h.rep.Violate(vh.Violation{Site: "fracmanager/loader.go:load", Class: "fraction-partially-served",
-			What: fmt.Sprintf("history %s: the fraction is served partially: %s", hist.events(), detail), Replay: []string{hist.String()}})
+		site, class := "fracmanager/loader.go:load", "fraction-partially-served"
+		for i, st := range hist.steps {
+			if st.ev == "suicide" && st.crashAt > 0 && i > 0 && i-1 < len(obs) && strings.HasPrefix(obs[i-1], "active:") {
+				// the deletion of an active fraction was cut between two of its removals
+				site, class = "frac/active.go:Suicide", "interrupted-active-deletion-half-served"
+			}
+		}
+		h.rep.Violate(vh.Violation{Site: site, Class: class,
+			What: fmt.Sprintf("history %s: the fraction is served partially (ids without fetchable documents or the reverse): %s; states %s", hist.events(), detail, strings.Join(obs, ";")), Replay: []string{hist.String()}})
 	}
 }
 
